@@ -24,13 +24,16 @@ RULE = ("documents (generated trees serialized by the library under several flag
 ASSUMPTIONS = ["a write(2) call that does not fail accepts at least one byte (otherwise the C loop does not terminate: "
                "theorem write_zero_never_returns); schedules with finitely many zero returns are exercised",
                "read(2) stores at most the count it was asked for",
-               "malloc/realloc succeed (allocation failure is property C08); leak freedom of the error paths is "
-               "checked by LeakSanitizer at harness exit and by the model's ledger (live = [])",
+               "malloc/realloc succeed (allocation failure is property C08); leak freedom is checked per op by the "
+               "harness (live heap blocks before/after each library call through --wrap=malloc,calloc,realloc,free,"
+               "strdup,vasprintf, open descriptors through /proc/self/fd), by LeakSanitizer at harness exit and by "
+               "the model's ledger (live = [], fdsLeft = 0)",
                "serializer and parser are parameters: json_object_to_json_string_ext / json_tokener_parse_ex are "
                "taken as they are (properties C01-C04 cover them)",
                "less than INT_MAX-8 bytes are read in the correspondence run (the refusal path of the print buffer "
                "is covered by theorem io_errors_reported and by C19)"]
-TRUSTED = ["glibc open/close/strerror override (_JSON_C_STRERROR_ENABLE), ld --wrap interposition of read/write"]
+TRUSTED = ["glibc open/close, json-c's strerror override (_JSON_C_STRERROR_ENABLE), ld --wrap interposition of "
+           "read/write/json_tokener_parse_ex and of the allocation entry points"]
 DEFECTS = []
 
 MANIFEST = dict(
